@@ -83,6 +83,7 @@ def run_check(prop, tier, seed):
     cls = get_oracle(prop)
     custom = getattr(cls, "custom_driver", None)
     cross = getattr(cls, "cross_hash", False)
+    os.environ["PROVSIM_TIER"] = tier  # inherited by the workers (deeper histories in thorough)
     work = tempfile.mkdtemp(prefix="provsim-%s-" % prop)
     procs = []
     seed0 = seed * 1000003
